@@ -1,6 +1,33 @@
 import os, re, subprocess, time
 from ._common import STD_TRUST
 
+
+def _regen_sharedstate(ctx):
+    """translators/sharedstate: the shared-state inventory of REPO's source (go/types + go/ssa), rebuilt from the files on
+    disk when stale, run on every check. Any failure (the repository no longer type-checks, the analysis does not reach a
+    fixpoint, the factory tables are not seen, ...) is a tool failure: never a silent pass."""
+    import framework as F
+    src = os.path.join(F.ROOT, 'translators', 'sharedstate')
+    exe = os.path.join(F.BIN, 'sharedstate')
+    t = time.time()
+    newest = max(os.path.getmtime(os.path.join(src, f)) for f in os.listdir(src))
+    if not os.path.exists(exe) or os.path.getmtime(exe) < newest:
+        rc, out = F.sh(['go', 'build', '-o', exe, '.'], cwd=src, env=F.GOENV)
+        if rc != 0:
+            ctx.fail('tool', 'translator sharedstate does not build', detail=out[-2000:])
+            return False
+    os.makedirs(F.WORK, exist_ok=True)
+    rc, out = F.sh([exe, F.REPO, os.path.join(F.LEAN, 'FitModel', 'Generated', 'SharedState.lean'),
+                    os.path.join(F.WORK, 'sharedstate.txt')], env=F.GOENV, timeout=600)
+    ctx.timing['regen_sharedstate'] = round(time.time() - t, 2)
+    if rc != 0:
+        ctx.fail('tool', 'translator sharedstate failed: the shared-state inventory could not be derived from the source', detail=out[-2000:])
+        return False
+    return True
+
+
+REGEN = {'sharedstate': _regen_sharedstate}
+
 def _race_exec(ctx, lines):
     """run operation lines on the race build; returns (answers, reports)"""
     import framework as F
@@ -83,23 +110,57 @@ def _extra(ctx, spec):
 
 PROP = dict(
     level='proof',
-    regen=['filedefs'],
-    theorems=['Fit.C15.C15_pool_inv', 'Fit.C15.C15_op_result_indep_of_pool', 'Fit.C15.C15_actions_commute',
-              'Fit.C15.C15_non_interference_prefix', 'Fit.C15.C15_non_interference', 'Fit.C15.C15_options_never_written',
-              'Fit.C15.C15_no_conflict', 'Fit.C15.C15_shared_options_result'],
+    regen=['filedefs', 'sharedstate'],
+    theorems=['Fit.C15.C15_inventory_writes_guarded', 'Fit.C15.C15_inventory_exceptions_used', 'Fit.C15.C15_no_caller_options_written',
+              'Fit.C15.C15_inventory_escapes_listed', 'Fit.C15.C15_no_table_entry_named_unknown', 'Fit.C15.C15_inventory_sees_known_state',
+              'Fit.C15.C15_generated_env_ok', 'Fit.C15.C15_generated_programs_wf',
+              'Fit.C15.C15_non_interference_prefix', 'Fit.C15.C15_solo_run_is_exec', 'Fit.C15.C15_non_interference',
+              'Fit.C15.C15_pool_no_alias', 'Fit.C15.C15_shared_rows_stable', 'Fit.C15.C15_entry_points_non_interference',
+              'Fit.C15.C15_witness_double_put', 'Fit.C15.C15_witness_unguarded_read', 'Fit.C15.C15_witness_unguarded_write',
+              'Fit.C15.C15_witness_options_write'],
     families=[dict(name='concurrent', prop=True, shrink=True)],
     extra=_extra,
     trusted_base=STD_TRUST + [
-        "the list of shared cells in FitModel/Shared.lean (factory table behind sync.Once, mesgdef's sync.Pool, caller-provided Options) comes from reading the code and from -race runs; an unmodelled shared word is visible only to the race detector",
-        "sync.Once / sync.Pool / channels synchronise as documented (Go memory model); sync.Pool.Get returns a previously Put value or a fresh New() one",
-        "data-race freedom of the compiled binary is SAMPLED: family `concurrent` runs under the race detector in both tiers; every report is a violation (no excused site since the repair of KF-C15-1); that shared option values are only read is also observed directly (the shared options objects are compared with their values before the concurrent phase)",
+        "translators/sharedstate (go/parser + go/types + go/ssa v0.29.0, own reference analysis): the inventory is only as complete as the analysis — "
+        "inclusion-based, flow-insensitive points-to with function summaries, one level of field sensitivity for local structs, a one-level type-based heap for "
+        "pointers into package state stored in struct fields, interface calls by class hierarchy; pointers into package state buried deeper in heap objects of "
+        "unknown provenance are not followed (notes/model-notes-C14-C15.md lists the rules); reflection, unsafe arithmetic, cgo and assembly are not analysed",
+        "the model's actions are taken to be what the compiled code does: an access guarded by sync.Once / sync.Pool / a channel is atomic with respect to the "
+        "other operations (Go memory model), sync.Pool.Get returns a previously Put value or a fresh New() one",
+        "data-race freedom of the compiled binary is SAMPLED, not proved: family `concurrent` runs under the race detector in both tiers (k = 2, 4, 16 "
+        "goroutines, GOMAXPROCS 1..16; decoders, encoders with the default validator and developer data, stream encoders, listeners, typed conversions with "
+        "shared options, factory first use in a fresh process, the opener's decoder pool); every report is a violation",
+        "the 13 listed exceptions of the inventory (FitModel/SharedGen.lean `exceptions`, each with its reason) and the list of tables whose references may "
+        "leave the library (`allowedEscapes`)",
     ],
-    assumptions=["operations act on distinct objects (own decoder/encoder/listener/file/buffers); only package-level state and read-only option values are shared"],
+    assumptions=["operations act on distinct objects (own decoder/encoder/listener/file/buffers); only package-level state and read-only option values are shared",
+                 "the registration APIs (factory.RegisterMesg, typedef.FileRegister, typedef.MesgNumRegister: documented unsynchronised, start-up only) are not "
+                 "called while objects are used concurrently"],
     rule='operations = mixes of k in {2,4,16} goroutines x 2..24 operations on distinct objects; an evaluation = one mix (every operation of it compared with its solo run); race-detector runs counted in extra_evaluations',
 )
 
 TEXT = dict(
-    technique='Lean 4 proof of non-interference for interleavings of atomic actions over a model of the shared package state (simulation invariant, commutation), differential tie (concurrent vs solo results on the real code) and race-detector runs',
-    text='For every set of operations over the modelled alphabet (pool Get/Put, once-guarded factory table, options nil check, private steps), every interleaving and every resolution of sync.Pool.Get, each operation ends with the result of its solo run; the pool only holds zeroed arrays and results do not depend on that; actions of different operations commute. No operation ever writes an options object of the caller, whether its Factory is set or nil, shared or not (ToMesg takes the default factory in a local since the repair of KF-C15-1), so there is no conflict on shared option values and conversions sharing one yield their solo results; the shared options objects of the implementation are observed unchanged and the race detector must stay silent.',
-    note='Proof level for the model; partial for the binary: word-level races of the compiled code are sampled by the race detector (k = 2, 4, 16 goroutines, GOMAXPROCS 1..16, decoders, encoders, listeners, typed conversions, factory first use in a fresh process, opener pool), not proved.',
+    technique='(1) shared-state inventory regenerated from the Go source by a go/ssa reference analysis, obligations over it decided by the Lean kernel; '
+              '(2) Lean 4 proof of non-interference for all interleavings of all well-formed programs over a hand-written model of exactly the inventory rows '
+              '(simulation of every thread by its solo run under a no-alias / Once / read-only invariant); (3) the programs of the real entry points derived from '
+              'the regenerated call-graph touches and decided well formed; differential tie (concurrent vs solo on the real code) and race-detector runs',
+    text='REGENERATED AND PROVED (kernel-decided over FitModel/Generated/SharedState.lean on every run): every package-level variable of the packages behind the '
+         'public API that is written after initialisation is a sync.Pool used only through Get/Put by users that obey the pool discipline (balance along all '
+         'paths, the object put back is the one taken, not used after Put, Reset after Get or used only as an empty append scratch), or is written only inside one '
+         'sync.Once and read only after a Do call on it, or is one of 13 listed (variable, function) exceptions with reasons; no exported function writes through a '
+         'caller-supplied pointer to an options type; references into package state leave the library only for the listed read-only tables; no factory table entry '
+         'carries the name by which the decoder recognises a field description it may complete in place. '
+         'HAND-MODELLED AND PROVED for all programs, all interleavings, all resolutions of sync.Pool.Get: over a model whose shared state is exactly the inventory '
+         'rows (data cells, a three-state Once whose closure publishes and fills step by step while others block, pools of objects with identity, caller option '
+         'objects), every well-formed operation observes exactly what it observes when run alone (the solo run is the same semantics with one thread and '
+         'terminates), no pooled object has two holders, a done Once has all its rows built; four witness theorems show that dropping a guard (object put back '
+         'twice, table read in front of its Once, unguarded write of shared state, write to a caller options object) breaks this in the model. '
+         'TIED BY REGENERATION: the program of every exported function is derived from the rows its call graph touches and is decided well formed, so the theorem '
+         'applies to every set of entry points; the driver executes these programs.',
+    note='Proof level covers the inventory obligations, the model theorem and the well-formedness of the derived programs. NOT proved, only sampled: that the '
+         'model\'s atomic actions are what the compiled code does and that the binary has no word-level data race — family `concurrent` compares every goroutine\'s '
+         'result with its solo result on the real code and runs under the race detector in both tiers (quick: 125 + 80 mixes, thorough: 1500 + 600; k = 2, 4, 16 '
+         'goroutines, GOMAXPROCS 1..16; decoders, encoders and stream encoders with the default validator and developer data, listeners, typed conversions with '
+         'shared set / nil-Factory options, factory first use in a fresh process, opener pool); the inventory is as complete as the reference analysis '
+         '(trusted_base). Assumption: the registration APIs are not called concurrently with use.',
 )
